@@ -90,6 +90,7 @@ class Tools:
         self.env = env
         self.nfile = 0
         self.launches = collections.Counter()
+        self.seconds = collections.Counter()
 
     def path(self, stem, ext=".nc"):
         self.nfile += 1
@@ -106,6 +107,14 @@ class Tools:
         cmd = [exe] + list(args)
         if k > 1:
             cmd = ["mpiexec", "--oversubscribe", "-n", str(k)] + cmd
+        last = None
+        t0 = time.time()
+        try:
+            return self._run(tool, cmd, k, timeout)
+        finally:
+            self.seconds[tool] += time.time() - t0
+
+    def _run(self, tool, cmd, k, timeout):
         last = None
         for attempt in range(4):
             self.launches[tool] += 1
@@ -900,7 +909,7 @@ def prob(unit, kind, msg, **sig):
     s = {"tool": unit["tool"], "what": kind}
     s.update(sig)
     d = unit.get("derived") or {}
-    if d.get("kind"):
+    if d.get("kind") and unit["tool"] in ("cdfdiff", "ncmpidiff"):
         s["edit"] = d["kind"]
     return {"kind": kind, "msg": "%s: %s [%s]" % (unit["tool"], msg, d.get("desc", "base file")), "sig": s, "unit": unit}
 
@@ -1139,7 +1148,7 @@ def gen_unsafe(f, data):
             b = d.tobytes()
             if any(c < 0x20 or c > 0x7E for c in b):
                 return "char_var_bytes"
-        if v.xtype in (10, 11) and d.size and int(np.abs(d.astype(object)).max()) > 2 ** 53:
+        if v.xtype in (10, 11) and d.size and max(abs(int(x)) for x in d.reshape(-1)) > 2 ** 53:
             return "int64_beyond_2p53"
     return None
 
@@ -1320,8 +1329,10 @@ def run_group(ctx, spec):
     style = spec["style"]
     f0, d0 = spec_model(spec)
     if spec["origin"] == "lib":
+        tl = time.time()
         try:
             base, note = lib_write(ctx, spec, f0, d0)
+            ctx.T.seconds["lib_write"] += time.time() - tl
         except PoolError as e:
             ctx.count("lib_pool_error_" + e.kind)
             ctx.notes.append("library-written base: pool %s: %s %s" % (e.kind, e.detail[:200], e.stderr_tail[-600:]))
@@ -1463,7 +1474,7 @@ def _worker(args):
         shutil.rmtree(root, ignore_errors=True)
     return {"stats": dict(ctx.stats), "nt": list(ctx.nt), "samples": ctx.samples, "evaluations": ctx.evaluations, "failures": ctx.failures,
             "notes": ctx.notes, "known_hits": dict(ctx.known.hits), "excluded_known": ctx.excluded_known, "wall": time.time() - t0,
-            "launches": dict(ctx.T.launches)}
+            "launches": dict(ctx.T.launches), "seconds": {k: round(v, 2) for k, v in ctx.T.seconds.items()}}
 
 
 def sig_key(problems):
@@ -1538,7 +1549,7 @@ def main():
     else:
         with multiprocessing.get_context("fork").Pool(nw) as mp:
             results = mp.map(_worker, args)
-    stats, nt, launches = collections.Counter(), set(), collections.Counter()
+    stats, nt, launches, seconds = collections.Counter(), set(), collections.Counter(), collections.Counter()
     samples, failures = [], []
     evaluations = excluded_known = 0
     known_hits = collections.Counter(ctx0.known.hits)
@@ -1552,6 +1563,8 @@ def main():
         known_hits.update(r["known_hits"])
         excluded_known += r["excluded_known"]
         launches.update(r["launches"])
+        seconds.update(r["seconds"])
+        seconds["worker_wall"] += r["wall"]
 
     # triage: one unit per distinct signature (the smallest), replayed 3x
     os.makedirs(rdir, exist_ok=True)
@@ -1591,7 +1604,7 @@ def main():
     wall = time.time() - t0
     per_tool = {t: {k.split(":", 1)[1]: v for k, v in sorted(stats.items()) if k.startswith(t + ":")} for t in TOOLS}
     cov = {"evaluations": evaluations, "distinct_nontrivial": len(nt), "rule": RULE, "samples": samples[:4],
-           "classes": dict(sorted(stats.items())), "per_tool_per_kind": per_tool, "tool_launches": dict(launches),
+           "classes": dict(sorted(stats.items())), "per_tool_per_kind": per_tool, "tool_launches": dict(launches), "tool_seconds": {k: round(v, 1) for k, v in seconds.items()},
            "excluded_known": excluded_known, "exclusions_active": active,
            "exclusions": {k: v["what"] for k, v in EXCLUSIONS.items()}, "validator_classes_asserted": CLAIMED,
            "regression_replays": nreg, "workers": nw, "groups_per_worker": ng, "build": {k: os.path.basename(v) for k, v in builds.items()},
